@@ -827,6 +827,8 @@ def run(ctx, rep):
     rule_pair(ctx, rep)
     rule_linecol(ctx, rep)
     rule_tile(ctx, rep)
+    from rules.c15 import rule_verbatim
+    rule_verbatim(ctx, rep, rid="R-C05-verbatim")
     from rules import c05_blank, c05_joinorder
     c05_blank.run(ctx, rep)
     c05_joinorder.run(ctx, rep)
